@@ -8,12 +8,19 @@ package pdftree
 
 import (
 	"bytes"
+	"cmp"
+	"errors"
 	"fmt"
+	"io"
+	"math"
+	"math/rand"
 	"os"
+	"slices"
 	"sort"
 	"testing"
 
 	"seehuhn.de/go/pdf"
+	"seehuhn.de/go/pdf/internal/debug/memfile"
 )
 
 func c17Doc(t *testing.T, build func(w *pdf.Writer) (pdf.Reference, error)) (*pdf.Reader, pdf.Reference) {
@@ -40,7 +47,7 @@ func c17Doc(t *testing.T, build func(w *pdf.Writer) (pdf.Reference, error)) (*pd
 }
 
 // c17Structure validates a name/number tree node recursively and returns its keys in order.
-func c17Structure(r *pdf.Reader, node pdf.Object, leafKey pdf.Name, isRoot bool, depth int, keyOf func(pdf.Object) (string, bool), less func(a, b string) bool) (keys []string, err error) {
+func c17Structure(r pdf.Getter, node pdf.Object, leafKey pdf.Name, isRoot bool, depth int, keyOf func(pdf.Object) (string, bool), less func(a, b string) bool) (keys []string, err error) {
 	if depth > 20 {
 		return nil, fmt.Errorf("too deep")
 	}
@@ -181,8 +188,8 @@ func TestB2C17NameTrees(t *testing.T) {
 						if err != nil || !pdf.Equal(got, val) {
 							t.Errorf("B2-FAIL lookup-present %s %s key=%q: %v %v", desc, name, k, got, err)
 						}
-					} else if err == nil && got != nil {
-						t.Errorf("B2-FAIL lookup-absent %s %s key=%q: found %v", desc, name, k, got)
+					} else if err == nil || got != nil {
+						t.Errorf("B2-FAIL lookup-absent %s %s key=%q: found %v %v", desc, name, k, got, err)
 					}
 				}
 			}
@@ -257,7 +264,7 @@ func TestB2C17NumberTrees(t *testing.T) {
 				t.Errorf("B2-FAIL lookup-present %s key=%d: %v %v", desc, k, got, err)
 			}
 			if _, has := data[k+1]; !has && k != 9223372036854775807 {
-				if got, err := str.Lookup(k + 1); err == nil && got != nil {
+				if got, err := str.Lookup(k + 1); err == nil || got != nil {
 					t.Errorf("B2-FAIL lookup-absent %s key=%d", desc, k+1)
 				}
 			}
@@ -294,4 +301,550 @@ func TestB2C17NumberTrees(t *testing.T) {
 		}
 	}
 	t.Logf("B2-CASES %d", cases)
+}
+
+// ---------------------------------------------------------------------------
+// Sessions: the map, the way the tree is written and the way it is read are all
+// drawn from wider classes.
+//
+//   - values of every object kind (null, boolean, integer, real, name, string,
+//     array, dictionary, reference); null is an object like any other, so a key
+//     that maps to null is present;
+//   - one to three trees (name and number trees mixed) in one file, written by
+//     WriteMap or by Write from a sequence, with no stream open or while a
+//     stream is open on the same Writer (objects are queued until the stream is
+//     closed), possibly several trees within one such window;
+//   - read from the Writer before Close and from a Reader on the finished file;
+//   - an in-memory tree built from the Go map without any file;
+//   - random sessions of reader operations: lookups (present, absent neighbours,
+//     below the minimum, above the maximum), complete enumerations,
+//     enumerations abandoned after j entries, enumerations of a sequence value
+//     that was ranged over before (an iter.Seq2 is restartable), Size;
+//   - the tree copied into a second file from the enumeration of either reader.
+//
+// The oracle is the sorted Go map; the raw node walk (c17Structure, c17RawValues)
+// is independent of the library's readers.
+
+type c17Kind[K cmp.Ordered] struct {
+	name    string
+	leafKey pdf.Name
+	ord     func(K) string             // order-preserving text form
+	keyOf   func(pdf.Object) (K, bool) // key object of a leaf array
+	gen     func(rng *rand.Rand, n int) []K
+	absent  func(rng *rand.Rand, k K) []K // neighbours of k and keys beyond both ends
+}
+
+var c17NameKind = c17Kind[pdf.Name]{
+	name:    "names",
+	leafKey: "Names",
+	ord:     func(k pdf.Name) string { return string(k) },
+	keyOf:   func(o pdf.Object) (pdf.Name, bool) { s, ok := o.(pdf.String); return pdf.Name(s), ok },
+	gen: func(rng *rand.Rand, n int) []pdf.Name {
+		// short strings over an alphabet with the bytes that matter for the byte-wise
+		// order and for the string syntax: many are prefixes of each other
+		alphabet := []byte{0x00, '\n', '\r', '(', ')', '\\', 'a', 'b', 0x7f, 0x80, 0xff}
+		prefix := ""
+		if rng.Intn(3) == 0 {
+			prefix = "common/prefix\xc3\xa9"
+		}
+		seen := map[pdf.Name]bool{}
+		var res []pdf.Name
+		for tries := 0; len(res) < n; tries++ {
+			maxLen := 3 + tries/(20*(n+1))
+			b := make([]byte, rng.Intn(maxLen+1))
+			for i := range b {
+				b[i] = alphabet[rng.Intn(len(alphabet))]
+			}
+			k := pdf.Name(prefix + string(b))
+			if !seen[k] {
+				seen[k] = true
+				res = append(res, k)
+			}
+		}
+		return res
+	},
+	absent: func(rng *rand.Rand, k pdf.Name) []pdf.Name {
+		res := []pdf.Name{k + "\x00", k + "a", "", "\xff\xff\xff\xff\xff\xff\xff\xff\xff"}
+		if len(k) > 0 {
+			b := []byte(k)
+			res = append(res, pdf.Name(b[:len(b)-1]))
+			b[len(b)-1]++
+			res = append(res, pdf.Name(b))
+			b[len(b)-1] -= 2
+			res = append(res, pdf.Name(b))
+		}
+		return res
+	},
+}
+
+var c17NumKind = c17Kind[pdf.Integer]{
+	name:    "nums",
+	leafKey: "Nums",
+	ord:     func(k pdf.Integer) string { return fmt.Sprintf("%020d", uint64(int64(k))^(1<<63)) },
+	keyOf:   func(o pdf.Object) (pdf.Integer, bool) { i, ok := o.(pdf.Integer); return i, ok },
+	gen: func(rng *rand.Rand, n int) []pdf.Integer {
+		seen := map[pdf.Integer]bool{}
+		var res []pdf.Integer
+		style := rng.Intn(4)
+		base := pdf.Integer(rng.Intn(2000) - 1000)
+		for len(res) < n {
+			var k pdf.Integer
+			switch style {
+			case 0: // consecutive integers across zero
+				k = base - pdf.Integer(n/2) + pdf.Integer(len(res))
+			case 1: // sparse, small
+				k = pdf.Integer(rng.Intn(20*n+10) - 10*n)
+			case 2: // anywhere in int64, the extremes included
+				k = pdf.Integer(rng.Uint64())
+				switch rng.Intn(8) {
+				case 0:
+					k = math.MinInt64 + pdf.Integer(rng.Intn(3))
+				case 1:
+					k = math.MaxInt64 - pdf.Integer(rng.Intn(3))
+				}
+			default: // around the limits of exactly representable floats
+				k = pdf.Integer(1<<53) + pdf.Integer(rng.Intn(4*n+8)-2*n)
+				if rng.Intn(2) == 0 {
+					k = -k
+				}
+			}
+			if !seen[k] {
+				seen[k] = true
+				res = append(res, k)
+			}
+		}
+		return res
+	},
+	absent: func(rng *rand.Rand, k pdf.Integer) []pdf.Integer {
+		res := []pdf.Integer{math.MinInt64, math.MaxInt64, 0}
+		if k < math.MaxInt64 {
+			res = append(res, k+1)
+		}
+		if k > math.MinInt64 {
+			res = append(res, k-1)
+		}
+		return res
+	},
+}
+
+func c17Value(rng *rand.Rand, i int) pdf.Object {
+	switch rng.Intn(11) {
+	case 0:
+		return nil // the null object
+	case 1:
+		return pdf.Integer(rng.Intn(2000) - 1000)
+	case 2:
+		return pdf.Name(fmt.Sprintf("N%d", i))
+	case 3:
+		return pdf.String(fmt.Sprintf("s(%d)\\\x00\xff", i))
+	case 4:
+		return pdf.Boolean(i%2 == 0)
+	case 5:
+		return pdf.Real(float64(i%1000) + 0.5)
+	case 6:
+		return pdf.Array{pdf.Integer(i), nil, pdf.Name("A")}
+	case 7:
+		return pdf.Dict{"D": pdf.Integer(i), "S": pdf.String("x")}
+	case 8:
+		return pdf.Integer(0)
+	default:
+		return pdf.NewReference(uint32(100000+i), 0)
+	}
+}
+
+// c17RawValues returns the values of a tree in the order of the raw leaf arrays.
+func c17RawValues(r pdf.Getter, node pdf.Object, leafKey pdf.Name, depth int) []pdf.Object {
+	obj, _ := pdf.Resolve(r, node)
+	d, _ := obj.(pdf.Dict)
+	if d == nil || depth > 20 {
+		return nil
+	}
+	var res []pdf.Object
+	if leaf, _ := pdf.Resolve(r, d[leafKey]); leaf != nil {
+		a, _ := leaf.(pdf.Array)
+		for i := 1; i < len(a); i += 2 {
+			res = append(res, a[i])
+		}
+		return res
+	}
+	kids, _ := pdf.Resolve(r, d["Kids"])
+	ka, _ := kids.(pdf.Array)
+	for _, kid := range ka {
+		res = append(res, c17RawValues(r, kid, leafKey, depth+1)...)
+	}
+	return res
+}
+
+// c17Plan is one tree of a session: how to write it and how to check it.
+type c17Plan struct {
+	desc  string
+	write func(w *pdf.Writer) (pdf.Reference, error)
+	// check reads the tree back from g and returns the number of reader operations;
+	// ops is the length of the random reader session.
+	check func(t *testing.T, g pdf.Getter, root pdf.Reference, where string, ops int)
+	// copyTo writes the tree again, into w2, from the enumeration of a reader on g.
+	copyTo func(t *testing.T, g pdf.Getter, root pdf.Reference, w2 *pdf.Writer, streaming bool) (pdf.Reference, error)
+	// structure does the raw checks only
+	structure func(t *testing.T, g pdf.Getter, root pdf.Reference, where string) bool
+}
+
+type c17Seq[K cmp.Ordered] = func(func(K, pdf.Object) bool)
+
+func c17NewPlan[K cmp.Ordered, C codec[K]](kd c17Kind[K], seed int64, n int, viaSeq bool) *c17Plan {
+	rng := rand.New(rand.NewSource(seed))
+	keys := kd.gen(rng, n)
+	data := map[K]pdf.Object{}
+	for i, k := range keys {
+		data[k] = c17Value(rng, i)
+	}
+	slices.Sort(keys)
+	p := &c17Plan{desc: fmt.Sprintf("%s n=%d seed=%d seq=%v", kd.name, n, seed, viaSeq)}
+
+	p.write = func(w *pdf.Writer) (pdf.Reference, error) {
+		if !viaSeq {
+			return WriteMap[K, C](w, data)
+		}
+		return Write[K, C](w, func(yield func(K, pdf.Object) bool) {
+			for _, k := range keys {
+				if !yield(k, data[k]) {
+					return
+				}
+			}
+		})
+	}
+
+	p.structure = func(t *testing.T, g pdf.Getter, root pdf.Reference, where string) bool {
+		desc := p.desc + " " + where
+		if n == 0 {
+			if root != 0 {
+				t.Errorf("B2-FAIL empty-map-tree %s: root %v", desc, root)
+				return false
+			}
+			return true
+		}
+		keyOf := func(o pdf.Object) (string, bool) {
+			k, ok := kd.keyOf(o)
+			if !ok {
+				return "", false
+			}
+			return kd.ord(k), true
+		}
+		got, err := c17Structure(g, root, kd.leafKey, true, 0, keyOf, func(a, b string) bool { return a < b })
+		if err != nil {
+			t.Errorf("B2-FAIL structure %s: %v", desc, err)
+			return false
+		}
+		ok := len(got) == len(keys)
+		for i := 0; ok && i < len(keys); i++ {
+			ok = got[i] == kd.ord(keys[i])
+		}
+		if !ok {
+			t.Errorf("B2-FAIL keys %s: tree holds %d keys, map %d, or other keys", desc, len(got), len(keys))
+			return false
+		}
+		vals := c17RawValues(g, root, kd.leafKey, 0)
+		for i := 0; i < len(keys) && i < len(vals); i++ {
+			if !pdf.Equal(vals[i], data[keys[i]]) {
+				t.Errorf("B2-FAIL raw-value %s key=%q: %v", desc, fmt.Sprint(keys[i]), vals[i])
+				return false
+			}
+		}
+		return true
+	}
+
+	p.check = func(t *testing.T, g pdf.Getter, root pdf.Reference, where string, ops int) {
+		desc := p.desc + " " + where
+		if !p.structure(t, g, root, where) {
+			return
+		}
+		reported := 0
+		fail := func(format string, args ...any) { // at most 4 lines for one tree and getter
+			if reported++; reported <= 4 {
+				t.Errorf(format, args...)
+			}
+		}
+		type reader struct {
+			name   string
+			lookup func(K) (pdf.Object, error)
+			all    func() c17Seq[K]
+			held   c17Seq[K] // one sequence value, ranged over again and again
+		}
+		var readers []*reader
+		var rootObj pdf.Object = root
+		if n == 0 && rng.Intn(2) == 0 {
+			rootObj = nil // "no tree"
+		}
+		mem, err1 := ExtractInMemory[K, C](g, rootObj)
+		str, err2 := ExtractFromFile[K, C](g, rootObj)
+		if err1 != nil || err2 != nil {
+			fail("B2-FAIL extract %s: %v %v", desc, err1, err2)
+			return
+		}
+		direct := &InMemory[K, C]{Data: data}
+		readers = append(readers,
+			&reader{name: "memory", lookup: mem.Lookup, all: func() c17Seq[K] { return mem.All() }},
+			&reader{name: "streaming", lookup: str.Lookup, all: func() c17Seq[K] { return str.All() }},
+			&reader{name: "memory-direct", lookup: direct.Lookup, all: func() c17Seq[K] { return direct.All() }})
+		for _, rd := range readers {
+			rd.held = rd.all()
+		}
+		if sz, err := Size[K, C](g, rootObj); rootObj != nil && (err != nil || sz != n) {
+			fail("B2-FAIL size %s: %d %v, want %d", desc, sz, err, n)
+		}
+
+		enumerate := func(rd *reader, seq c17Seq[K], stop int, how string) {
+			i, bad := 0, ""
+			seq(func(k K, v pdf.Object) bool {
+				if bad == "" {
+					if i >= n {
+						bad = "more entries than the map"
+					} else if k != keys[i] {
+						bad = fmt.Sprintf("entry %d is %q, want %q", i, fmt.Sprint(k), fmt.Sprint(keys[i]))
+					} else if !pdf.Equal(v, data[k]) {
+						bad = fmt.Sprintf("entry %d (%q) has value %v", i, fmt.Sprint(k), v)
+					}
+				}
+				i++
+				return i != stop
+			})
+			want := n
+			if stop > 0 && stop < n {
+				want = stop
+			}
+			if bad == "" && i != want {
+				bad = fmt.Sprintf("%d entries, want %d", i, want)
+			}
+			if bad != "" {
+				fail("B2-FAIL enumerate %s %s %s stop=%d: %s", desc, rd.name, how, stop, bad)
+			}
+		}
+		lookup := func(rd *reader, k K) {
+			want, present := data[k]
+			got, err := rd.lookup(k)
+			if present {
+				if err != nil || !pdf.Equal(got, want) {
+					fail("B2-FAIL lookup-present %s %s key=%q: %v %v", desc, rd.name, fmt.Sprint(k), got, err)
+				}
+			} else if !errors.Is(err, ErrKeyNotFound) || got != nil {
+				fail("B2-FAIL lookup-absent %s %s key=%q: %v %v", desc, rd.name, fmt.Sprint(k), got, err)
+			}
+		}
+
+		// fixed part: both ends, the entries next to the leaf boundaries, every null value (up to 8)
+		for _, rd := range readers {
+			nulls := 0
+			for i, k := range keys {
+				isNull := data[k] == nil && nulls < 8
+				if isNull {
+					nulls++
+				}
+				if i == 0 || i == n-1 || i%64 == 63 || i%64 == 0 || isNull {
+					if n > 1000 && i%64 != 63 && i != 0 && i != n-1 && !isNull && i%1024 != 0 {
+						continue
+					}
+					lookup(rd, k)
+				}
+			}
+			if n == 0 {
+				var zero K
+				for _, k := range kd.absent(rng, zero) {
+					lookup(rd, k)
+				}
+			}
+			enumerate(rd, rd.held, 0, "held")
+		}
+		// random part
+		for op := 0; op < ops; op++ {
+			rd := readers[rng.Intn(len(readers))]
+			switch c := rng.Intn(10); {
+			case c < 3 && n > 0:
+				lookup(rd, keys[rng.Intn(n)])
+			case c < 6:
+				var k K
+				if n > 0 {
+					k = keys[[]int{0, n - 1, rng.Intn(n)}[rng.Intn(3)]]
+				}
+				cand := kd.absent(rng, k)
+				lookup(rd, cand[rng.Intn(len(cand))]) // the oracle decides whether it is present
+			case c < 7:
+				enumerate(rd, rd.all(), 0, "fresh")
+			case c < 8:
+				enumerate(rd, rd.held, 0, "held")
+			default:
+				seq, how := rd.held, "held"
+				if rng.Intn(2) == 0 {
+					seq, how = rd.all(), "fresh"
+				}
+				stop := 1
+				if n > 1 && rng.Intn(2) == 0 {
+					stop = 1 + rng.Intn(n)
+				}
+				enumerate(rd, seq, stop, how+"-partial")
+				enumerate(rd, seq, 0, how+"-again")
+			}
+		}
+	}
+
+	p.copyTo = func(t *testing.T, g pdf.Getter, root pdf.Reference, w2 *pdf.Writer, streaming bool) (pdf.Reference, error) {
+		if streaming {
+			str, err := ExtractFromFile[K, C](g, root)
+			if err != nil {
+				return 0, err
+			}
+			return Write[K, C](w2, str.All())
+		}
+		mem, err := ExtractInMemory[K, C](g, root)
+		if err != nil {
+			return 0, err
+		}
+		return Write[K, C](w2, mem.All())
+	}
+	return p
+}
+
+// c17File writes the plans into one file and checks them.  inStream[i] tells whether plan i is written
+// while a stream is open; keepOpen[i] whether that stream stays open for the next plan.
+func c17File(t *testing.T, rng *rand.Rand, plans []*c17Plan, inStream, keepOpen []bool, version pdf.Version, ops int) {
+	w, mf := memfile.NewPDFWriter(version, nil)
+	roots := make([]pdf.Reference, len(plans))
+	var stm io.WriteCloser
+	closeStm := func() {
+		if stm != nil {
+			if err := stm.Close(); err != nil {
+				t.Fatalf("harness: close stream: %v", err)
+			}
+			stm = nil
+		}
+	}
+	mode := ""
+	for i, p := range plans {
+		if inStream[i] && stm == nil {
+			var err error
+			stm, err = w.OpenStream(w.Alloc(), pdf.Dict{})
+			if err != nil {
+				t.Fatalf("harness: open stream: %v", err)
+			}
+			stm.Write([]byte("q Q\n"))
+		} else if !inStream[i] {
+			closeStm()
+		}
+		root, err := p.write(w)
+		if err != nil {
+			t.Errorf("B2-FAIL write %s: %v", p.desc, err)
+			closeStm()
+			w.Close()
+			return
+		}
+		roots[i] = root
+		if stm != nil {
+			stm.Write([]byte("% more\n"))
+			if !keepOpen[i] {
+				closeStm()
+			}
+		}
+		mode += map[bool]string{false: "p", true: "s"}[inStream[i]]
+	}
+	closeStm()
+	where := fmt.Sprintf("file[%s v%s]", mode, version)
+	if rng.Intn(3) == 0 {
+		for i, p := range plans {
+			p.check(t, w, roots[i], where+" writer", ops/2)
+		}
+	}
+	if err := w.Close(); err != nil {
+		t.Fatalf("harness: close: %v", err)
+	}
+	r, err := pdf.NewReader(bytes.NewReader(mf.Data), int64(len(mf.Data)), nil)
+	if err != nil {
+		t.Fatalf("harness: reopen: %v", err)
+	}
+	for i, p := range plans {
+		p.check(t, r, roots[i], where+" reader", ops)
+	}
+	// copy each tree into a second file from the enumeration of a reader; half of the copies are made
+	// while a stream is open on the second file
+	w2, mf2 := memfile.NewPDFWriter(version, nil)
+	roots2 := make([]pdf.Reference, len(plans))
+	for i, p := range plans {
+		var stm2 io.WriteCloser
+		if i%2 == 1 || rng.Intn(2) == 0 {
+			stm2, err = w2.OpenStream(w2.Alloc(), pdf.Dict{})
+			if err != nil {
+				t.Fatalf("harness: open stream: %v", err)
+			}
+		}
+		roots2[i], err = p.copyTo(t, r, roots[i], w2, rng.Intn(2) == 0)
+		if err != nil {
+			t.Errorf("B2-FAIL write %s copy: %v", p.desc, err)
+			roots2[i] = 0
+		}
+		if stm2 != nil {
+			if err := stm2.Close(); err != nil {
+				t.Fatalf("harness: close stream: %v", err)
+			}
+		}
+	}
+	if err := w2.Close(); err != nil {
+		t.Fatalf("harness: close: %v", err)
+	}
+	r2, err := pdf.NewReader(bytes.NewReader(mf2.Data), int64(len(mf2.Data)), nil)
+	if err != nil {
+		t.Fatalf("harness: reopen: %v", err)
+	}
+	for i, p := range plans {
+		p.structure(t, r2, roots2[i], where+" copy")
+	}
+}
+
+func TestB2C17Sessions(t *testing.T) {
+	files := 64
+	if os.Getenv("VERIF_TIER") == "thorough" {
+		files = 640
+	}
+	seed := int64(1)
+	fmt.Sscanf(os.Getenv("VERIF_SEED"), "%d", &seed)
+	boundary := []int{0, 1, 2, 63, 64, 65, 66, 127, 128, 129, 191, 192, 193, 255, 256, 257}
+	large := []int{4095, 4096, 4097, 4161, 8193}
+	trees := 0
+	for f := 0; f < files; f++ {
+		rng := rand.New(rand.NewSource(seed*1000003 + int64(f)))
+		size := func(j int) int {
+			switch {
+			case j == 0:
+				return boundary[f%len(boundary)] // every boundary size in every run, whatever the seed
+			case f%32 == 7 && j == 1:
+				return large[(f/32+int(seed))%len(large)]
+			case rng.Intn(2) == 0:
+				return boundary[rng.Intn(len(boundary))]
+			default:
+				return rng.Intn(400)
+			}
+		}
+		count := 1 + rng.Intn(3)
+		if f%32 == 7 {
+			count = 2
+		}
+		var plans []*c17Plan
+		inStream := make([]bool, count)
+		keepOpen := make([]bool, count)
+		for j := 0; j < count; j++ {
+			n := size(j)
+			ps := seed*7919 + int64(f)*16 + int64(j)
+			isNum := (f/16+j)%2 == 1
+			viaSeq := rng.Intn(2) == 0
+			if isNum {
+				plans = append(plans, c17NewPlan[pdf.Integer, NumCodec](c17NumKind, ps, n, viaSeq))
+			} else {
+				plans = append(plans, c17NewPlan[pdf.Name, NameCodec](c17NameKind, ps, n, viaSeq))
+			}
+			inStream[j] = rng.Intn(2) == 0
+			keepOpen[j] = rng.Intn(2) == 0
+		}
+		// the first tree of a file: both ways of writing for every boundary size and both kinds of tree
+		inStream[0] = (f/32)%2 == 0
+		version := []pdf.Version{pdf.V2_0, pdf.V1_7, pdf.V1_4}[f%3]
+		c17File(t, rng, plans, inStream, keepOpen, version, 40)
+		trees += count
+	}
+	t.Logf("B2-CASES %d", trees)
 }
